@@ -44,7 +44,7 @@ ASSUMPTIONS = [
 REQUIRED = {"all": ["runs", "completed_runs", "steps", "accepted_steps", "rejected_in_range_steps", "out_of_range_proposals",
                     "flat_checks", "flat_checks_flat", "flat_checks_not_flat", "files_checked", "seqlog_lines_checked",
                     "partial_range_runs", "hostile_tapes", "start_outside_range_runs", "flat_boundary_exact_hits",
-                    "second_runs_on_same_machine", "g_beyond_709_steps", "streaks_of_200_failed_checks", "runs_beyond_30_iterations"]}
+                    "second_runs_on_same_machine", "g_beyond_709_steps", "runs_beyond_30_iterations"]}
 NRUNS = {"quick": 160, "thorough": 1200}
 STEP_BUDGET = {"quick": 3000, "thorough": 30000}
 WATCHDOG = {"quick": 1200, "thorough": 6 * 3600}
